@@ -147,28 +147,30 @@ def middleWildcard (p : Path) : Bool :=
 
 /-- resolve `p` from the root following symlinks chroot-style; returns (links traversed, final location or none on a cycle).
 `final = some []` means the root. -/
-def resolveLoop (l : List Ent) : Nat → List Path → Path → List Path → List Path × Option Path
+def resolveLoop (l : List Ent) : Nat → List Path → List Path → List Path → List Path × Option (List Path)
   | 0, seen, _, _ => (seen, none)
   | _, seen, cur, [] => (seen, some cur)
   | fuel+1, seen, cur, c :: rest =>
     if c = [] ∨ c = [dot] then resolveLoop l fuel seen cur rest
-    else if c = dd then resolveLoop l fuel seen (parentOf cur) rest
+    else if c = dd then resolveLoop l fuel seen cur.dropLast rest
     else
-      let next := if cur = [] then c else cur ++ [47] ++ c
-      match findE l next with
+      let next := cur ++ [c]
+      match findE l (joinSep next) with
       | some e =>
         match e.link with
         | some ln =>
-          if seen.contains next then (seen, none)
+          if seen.contains (joinSep next) then (seen, none)
           else
             let tcs := comps ln
-            if isAbs ln then resolveLoop l fuel (next :: seen) [] (tcs ++ rest)
-            else resolveLoop l fuel (next :: seen) cur (tcs ++ rest)
+            if isAbs ln then resolveLoop l fuel (joinSep next :: seen) [] (tcs ++ rest)
+            else resolveLoop l fuel (joinSep next :: seen) cur (tcs ++ rest)
         | none => resolveLoop l fuel seen next rest
       | none => resolveLoop l fuel seen next rest
 
+/-- links traversed and the final location (as a path relative to the root; `some []` = the root itself) -/
 def resolve (l : List Ent) (p : Path) : List Path × Option Path :=
-  resolveLoop l (4 * (l.length + 2) * (p.length + 4) + 64) [] [] (comps p)
+  let r := resolveLoop l (4 * (l.length + 2) * (p.length + 4) + 64) [] [] (comps p)
+  (r.1, r.2.map joinSep)
 
 /-- does result element `r` (possibly a wildcard pattern, matched component by component) name `x` or an ancestor of `x`? -/
 def coversOne (r x : Path) : Bool :=
